@@ -47,8 +47,12 @@ Apply(e) ==
 
 TraceInit == Init /\ tid \in 1..Len(Batch) /\ l = 1
 Silent  == (\E t \in Ids : Internal(t)) /\ UNCHANGED <<tid, l>>
-Consume == /\ Quiescent /\ l <= Len(Events)
-           /\ l > 1 => ObsOK(Events[l - 1].obs)
+(* an event marked `atonce` was issued in the same turn of the pool's event loop as the previous one (a cancel   *)
+(* right behind the enqueue, before the worker took its first step): nothing could be observed in between and   *)
+(* the pool was not quiescent                                                                                   *)
+AtOnce(e) == "atonce" \in DOMAIN e /\ e.atonce
+Consume == /\ l <= Len(Events)
+           /\ AtOnce(Ev) \/ (Quiescent /\ (l > 1 => ObsOK(Events[l - 1].obs)))
            /\ Apply(Ev) /\ l' = l + 1 /\ tid' = tid
 (* C13: the output of a task that ran to its end is stored completely *)
 LogsOK  == On("C13") => \A t \in Ids : (pc[t] = "done" /\ cause[t] \in {"exit0", "exitN"}) =>
